@@ -35,6 +35,7 @@ COMMANDS = {
         "set_color-on-off": ["d.set_color(1, 2, 3)", "d.off()", "d.on()", "d.on(10, 20, 30)", "d.on(red=5, green=0, blue=0)", "d.set_color(0, 0, 0)", "d.set_color(red=255, green=128, blue=64)"],
         "blink": ["d.blink(255, 0, 64)", "d.blink(255, 0, 64, 3, 40)", "d.blink(1, 2, 3, 2)", "d.blink(9, 9, 9, times=2, delay_ms=15)", "d.blink(red=1, green=1, blue=1, delay_ms=5)",
                   "d.set_color(7, 8, 9)", "d.blink(100, 100, 100, 2, 10)"],
+        "fade-with-sub-millisecond-steps": ["d.fade(200, 100, 50, 20)", "d.fade(10, 20, 30, duration_ms=10, steps=40)", "d.fade(0, 0, 0, 7)", "d.fade(255, 255, 255, 1, 3)"],
         "fade": ["d.fade(10, 20, 30)", "d.fade(200, 0, 100, 500, 5)", "d.fade(0, 0, 0, duration_ms=100, steps=4)", "d.fade(255, 255, 255, 90)", "d.fade(red=3, green=2, blue=1, steps=2)"],
     },
     "Servo": {
@@ -92,7 +93,7 @@ def actuator_scripts():
     return out
 
 
-LCD_DECLS = {"parallel": "d = LCD(rs=22, en=23, d4=24, d5=25, d6=26, d7=27)", "i2c": "d = LCD(i2c_addr=0x27)",
+LCD_DECLS = {"parallel": "d = LCD(rs=22, en=23, d4=24, d5=25, d6=26, d7=27)", "i2c": "d = LCD(i2c_addr=0x27)", "8x2": "d = LCD(i2c_addr=0x3F, cols=8, rows=2)",
              "20x4": "d = LCD(rs=22, en=23, d4=24, d5=25, d6=26, d7=27, cols=20, rows=4)"}
 LCD_COMMANDS = {
     "write": ["d.write(0, 0, 'hello')", "d.write(3, 1, 'abc')", "d.write(0, 0, 'xy', align='right')", "d.write(2, 1, 'mid', align='center')", "d.write(0, 1, 'Q', align='Center')",
@@ -103,6 +104,8 @@ LCD_COMMANDS = {
     "message": ["d.message('top', 'bottom')", "d.message('only top')", "d.message(None, 'only bottom')", "d.message(bottom='kw bottom')", "d.message('a', 'b', top_align='center', bottom_align='right')",
                 "d.message('T', 'B', top_align='Center', bottom_align='RIGHT')", "d.message(None, 'x', bottom_align='center', clear_rows=False)", "d.message('keep', None, clear_rows=False)",
                 "d.message(top='t2', bottom='b2', clear_rows=True)"],
+    "quotes-and-backslashes": ["d.line(0, 'Say \"hi\" to everyone')", "d.line(1, 'a\\\\b\\\\c\\\\d\\\\e\\\\f\\\\g\\\\h\\\\i')", "d.write(2, 0, '\"\"\"\"\"\"\"\"\"\"\"\"\"\"\"\"\"\"\"\"')", "d.line(1, 'x\"y', align='right')",
+                               "d.write(0, 1, 'tab\\there', align='center')", "d.message('\"top\"', 'it\\'s')"],
     "clear-and-write": ["d.write(0, 0, 'abc')", "d.clear()", "d.write(1, 1, 'z')", "d.line(0, 'full')", "d.clear()"],
     # value * width is a multiple of max_value in every call: the property demands identical bars exactly there
     "progress": ["d.progress(0, 50)", "d.progress(1, 50, 200)", "d.progress(1, 150, max_value=200)", "d.progress(0, 5, 10, width=8)", "d.progress(1, 100, style='hash')", "d.progress(0, 3, 4, label='L')",
@@ -118,6 +121,8 @@ def lcd_scripts():
             if dname == "20x4":
                 lines += ["d.line(2, 'keep row two')", "d.line(3, 'keep row three')"]
             for k, c in enumerate(cmds):
+                if dname == "8x2":
+                    c = c.replace("d.write(10, 0,", "d.write(6, 0,")      # the property speaks of in-range columns: column 10 does not exist on 8 columns
                 lines.append(c)
                 lines.append(f"mon.write('-- {k}')")
             out[f"LCD-{dname}/{gname}"] = IMPORTS + "\n".join(lines) + "\n"
@@ -166,7 +171,25 @@ def device_differential(src, passes=2, lcd=False):
     h, f = _strip_empty_passes(observable(host["events"])), _strip_empty_passes(observable(fw["events"]))
     d = compare(h, f)
     if d is None:
-        return {"verdict": "same", "events": len(h)}
+        # "per pin, the same sequence of output levels": the levels the host Led / RGBLed command (P:) against the levels written on the
+        # device (W:), per pin, as sequences of level CHANGES (a repeated level is not an output event), PWM levels within one count
+        def changes(events, tag):
+            per = {}
+            for e in events:
+                if e.startswith(tag):
+                    _, pin, val = e.split(":")
+                    seq = per.setdefault(pin, [0])
+                    if int(val) != seq[-1]:
+                        seq.append(int(val))
+            return per
+        hp, fp = changes(host["events"], "P:"), changes(fw["events"], "W:")
+        for pin, hs in hp.items():
+            fs = fp.get(pin, [0])
+            if len(hs) != len(fs) or any(abs(a - b) > 1 for a, b in zip(hs, fs)):
+                k = next((i for i, (a, b) in enumerate(zip(hs, fs)) if abs(a - b) > 1), min(len(hs), len(fs)))
+                return {"verdict": "differs", "first_difference": {"pin": pin, "level_change_number": k, "host_levels": hs[max(0, k - 2):k + 4], "firmware_levels": fs[max(0, k - 2):k + 4],
+                                                                     "counts": [len(hs), len(fs)]}}
+        return {"verdict": "same", "events": len(h), "pins_compared": sorted(hp)}
     return {"verdict": "differs", "first_difference": d, "cpython": h[max(0, d["index"] - 6):d["index"] + 3], "firmware": f[max(0, d["index"] - 6):d["index"] + 3]}
 
 
